@@ -152,6 +152,14 @@ func countStep(steps []string, s string) int {
 // family of a chain (for the evidence counters).
 func (c chain) family() string {
 	switch {
+	case len(c.Muts) > 1:
+		return "facts-two-changes"
+	case len(c.Muts) == 1 && c.Muts[0].Throw:
+		return "facts-rolled-back"
+	case len(c.Muts) == 1 && c.Muts[0].Kind == "destroy":
+		return "facts-destroy"
+	case len(c.Muts) == 1:
+		return "facts-update"
 	case c.Entry != "":
 		return "verify-entry"
 	case countStep(c.Steps, "S") > 0:
